@@ -25,6 +25,8 @@ def main():
             mod.replay(spec["case"], a)
         else:
             mod.run_shard(spec, a)
+    except agg.FailFast:
+        pass
     except Exception:
         sys.stdout = real_out
         traceback.print_exc()
